@@ -32,6 +32,7 @@
 #include <numeric>
 #include <vector>
 #include <string>
+#include <stdexcept>
 #include "soplex/spxdefines.h"
 
 #ifdef SOPLEX_WITH_GMP
@@ -237,6 +238,10 @@ inline Rational ratFromString(const char* desc)
             res = Rational(s.substr(1));
          else
             res = Rational(s);
+
+         // an exact power of ten with millions of digits takes minutes and gigabytes: refuse absurd exponents
+         if(mult > 1000000 || mult < -1000000)
+            throw std::invalid_argument("exponent of rational literal out of range");
 
          if(mult != 0)
          {
